@@ -1019,7 +1019,7 @@ func (c *bCtx) run(x *vx.X) vx.Result {
 		viol := func(clause, id, msg string, paths []string) {
 			fp := "C19:seq-" + clause + ":" + id
 			out.Violations = append(out.Violations, vx.Violation{Fingerprint: fp,
-				Msg: fmt.Sprintf("%s: %s\n%s\nroot .gitattributes before=%q after=%q\nsub/.gitattributes before=%q after=%q\noutput of last command: %q", msg, strings.Join(quoteAll(capList(paths, 6)), ", "), stepDesc, st.Root, ns.Root, st.Sub, ns.Sub, strings.TrimSpace(res.Out+res.Err)),
+				Msg:    fmt.Sprintf("%s: %s\n%s\nroot .gitattributes before=%q after=%q\nsub/.gitattributes before=%q after=%q\noutput of last command: %q", msg, strings.Join(quoteAll(capList(paths, 6)), ", "), stepDesc, st.Root, ns.Root, st.Sub, ns.Sub, strings.TrimSpace(res.Out+res.Err)),
 				Detail: map[string]interface{}{"initial": init.Name, "ops": trace, "paths": paths, "before": st, "after": ns, "tainted_precondition": tainted}})
 		}
 		var clauses []string
